@@ -54,6 +54,55 @@ APPROX = [["SolverVSA", {}], ["SolverHybrid", {"approximate_first": True}]]
 ALL_EXACT = PLAIN + COMPOSITE + [["SolverReplacement", {}], ["SolverHybrid", {}]]
 TRACKED = [["Solver", {"track": True}], ["SolverComposite", {"track": True}], ["SolverCacheless", {"track": True}]]
 
+def directed_C18(tier, seed):
+    """scripted pickle scenarios: replacements installed / removed around a round trip, tracked and untracked solvers
+    pickled before their first query, every frontend class"""
+    from .w_solver import alphabet
+    from .term import BVS, BVV, T
+    A = alphabet(3)
+    x, y = BVS("x", 3), BVS("y", 3)
+    H = []
+    exprs = [T("__add__", x, BVV(1, 3)), T("__xor__", x, BVV(1, 3)), T("__add__", x, y), x]
+    for cls in ("SolverReplacement", "SolverReplacementCacheless"):
+        for v in (0, 3, 7):
+            for e in exprs:
+                for pre in (True, False):
+                    h = [["new", cls, {}]]
+                    if pre:
+                        h.append(["add_replacement", 0, x, BVV(v, 3), True])
+                    h.append(["pickle", 0])
+                    if not pre:
+                        h += [["add_replacement", 0, x, BVV(v, 3), True], ["add_replacement", 1, x, BVV(v, 3), True]]
+                    for s in (0, 1):
+                        h.append(["eval", s, e, 9, []])
+                    for s in (0, 1):
+                        h.append(["remove_replacements", s, x])
+                    for s in (0, 1):
+                        h.append(["eval", s, e, 9, []])
+                    for s in (0, 1):
+                        h.append(["max", s, e, False, []])
+                    H.append(h)
+    classes = [["Solver", {}], ["Solver", {"track": True}], ["SolverCacheless", {}], ["SolverComposite", {}],
+               ["SolverComposite", {"track": True}], ["SolverHybrid", {}], ["SolverHybrid", {"approximate_first": True}],
+               ["SolverStrings", {}], ["SolverReplacement", {}]]
+    cons = A["cons"]
+    import random
+    rng = random.Random(seed)
+    for cls, kw in classes:
+        for _ in range(6 if tier == "quick" else 40):
+            h = [["new", cls, kw]]
+            ok = [c for c in cons if not (kw.get("approximate_first") and "__and__" in json.dumps(c))]
+            for _k in range(rng.randint(0, 3)):
+                h.append(["add", 0, [rng.choice(ok)]])
+            if rng.random() < 0.4:
+                h.append(["satisfiable", 0, []])
+            if rng.random() < 0.3:
+                h.append(["add", 0, [rng.choice(ok)]])
+            h.append(["pickle", 0])
+            H.append(h)
+    return H
+
+
 SPECS = {
     "C11": dict(jobs=jobs_C11, clauses=QUERY_CLAUSES | TRUTH_CLAUSES, level="model_checking", k1=True),
     "C12": dict(jobs=jobs_generic(COMPOSITE, "c12", 50, 500, W=2, alpha="xyz", multi=True),
@@ -71,11 +120,17 @@ SPECS = {
     "C15": dict(jobs=lambda tier, seed: jobs_generic(PLAIN + [["SolverHybrid", {}]], "c15", 40, 400, n=8, multi=True)(tier, seed)
                 + jobs_generic(COMPOSITE, "c15c", 40, 400, n=8, W=2, alpha="xyz", multi=True)(tier, seed),
                 clauses=QUERY_CLAUSES | TRUTH_CLAUSES | SPLIT_CLAUSES, level="model_checking"),
-    "C16": dict(jobs=jobs_generic(TRACKED, "c16", 50, 500), clauses=CORE_CLAUSES | {"exc"}, level="model_checking"),
+    "C16": dict(jobs=lambda tier, seed: jobs_generic(TRACKED, "c16", 50, 500, n=10)(tier, seed)
+                + jobs_generic(TRACKED, "c16m", 50, 500, n=6, multi=True)(tier, seed),
+                clauses=CORE_CLAUSES | {"exc"}, level="model_checking"),
     "C17": dict(jobs=jobs_generic(PLAIN + COMPOSITE, "c17", 50, 500, faults=True, branchy=True),
                 clauses=QUERY_CLAUSES | FAULT_CLAUSES, level="fault_enumeration"),
-    "C18": dict(jobs=jobs_generic(ALL_EXACT, "c18", 40, 400, pickle=True),
-                clauses=QUERY_CLAUSES | TRUTH_CLAUSES, level="model_checking"),
+    "C18": dict(jobs=lambda tier, seed: jobs_generic(ALL_EXACT + [["SolverComposite", {"track": True}], ["Solver", {"track": True}],
+                                                                 ],
+                                                     "c18", 36, 400, pickle=True)(tier, seed)
+                + [{"mode": "list", "W": 3, "histories": directed_C18(tier, seed)[k::4], "probe": True, "tag": "c18d",
+                    "env": {"REUSE_Z3_SOLVER": "0"}} for k in range(4)],
+                clauses=QUERY_CLAUSES | TRUTH_CLAUSES | APPROX_CLAUSES | {"pickle-divergence"}, level="model_checking"),
 }
 
 
@@ -226,7 +281,17 @@ def check(pid, tier, regen=False):
             continue
         R.add_violation({"property": pid, "clause": clause, "tid": tr["tid"], "step": k, "event": describe(ev),
                          "vars": tr["vars"], "history": hist})
+    n_xp = 0
+    if pid == "C18":
+        # expressions: in-process identity, collected-original and fresh-process (PYTHONHASHSEED 0 / 1 / random) round trips
+        pj = [{"n": 40 if tier == "quick" else 400, "seed": seed * 100 + k} for k in range(8)]
+        pbad, pstats = C.pipeline("w_pickle", pj, "TracePickle.tla")
+        n_xp = C.merge_stats(pstats)["events"]
+        for _, ev, clause, _x in pbad:
+            R.add_violation({"property": pid, "clause": "expr-" + clause, "mode": ev.get("mode"), "original": ev["w"],
+                             "roundtrip": ev["r"], "probes": [p for p in ev["probes"] if p[0] != p[1]][:3]})
     R.coverage = {
+        "expression_roundtrips": n_xp,
         "states": st.get("calls", 0) + st["events"],
         "transitions": st.get("calls", 0),
         "traces_validated_against_impl": st["events"],
@@ -297,7 +362,7 @@ def _pred_core_empty_on_concrete_false(tr, k, clause):
     evs = tr["ev"][:k]
     ev = evs[-1]
     return ev["call"] == "unsat_core" and clause == "core-satisfiable" and len(ev["rets"]) == 0 and \
-        any(e["call"] == "add" and e.get("cfalse") and e["s"] == ev["s"] for e in evs)
+        any(e["call"] in ("add", "merge") and e.get("cfalse") for e in evs)
 
 
 def _pred_replacement_concrete_on_unsat(tr, k, clause):
@@ -308,7 +373,27 @@ def _pred_replacement_concrete_on_unsat(tr, k, clause):
         clause in ("answer-on-unsat", "eval-on-unsat", "solution-on-unsat")
 
 
+def _strip_ann(t):
+    return [t[0], t[1], t[2], [_strip_ann(a) for a in t[3]]]
+
+
+def _pred_core_annotation_confusion(tr, k, clause):
+    """unsat_core() maps Z3's core back to claripy constraints through a per-backend cache keyed by the Z3 term, which
+    does not see annotations: the core can contain a constraint that differs from the added one only in its
+    annotations (possibly one that a different solver added)"""
+    if clause != "core-not-subset":
+        return False
+    ev = tr["ev"][k - 1]
+    added = set()
+    for e in tr["ev"][:k]:
+        for t in list(e.get("cs", [])) + list(e.get("csb", [])) + list(e.get("scons", [])):
+            added.add(json.dumps(_strip_ann(t)))
+    return bool(ev["rets"]) and all(json.dumps(_strip_ann(t)) in added for t in ev["rets"]) and \
+        any(len(t) > 4 for e in tr["ev"][:k] for t in e.get("cs", []))
+
+
 PREDICATES = {"composite-unsat-flag": _pred_composite_unsat_flag,
+              "core-annotation-confusion": _pred_core_annotation_confusion,
               "core-empty-on-concrete-false": _pred_core_empty_on_concrete_false,
               "composite-stale-child": _pred_composite_stale_child,
               "replacement-concrete-on-unsat": _pred_replacement_concrete_on_unsat}
